@@ -87,6 +87,21 @@ def reset_histories():
                        {"op": "parse", "i": 1, "api": "render", "doc": "D2", "env": "omitted"},
                        {"op": "exit_reset", "i": 1, "how": how},
                        {"op": "parse", "i": 1, "api": "render", "doc": "D2", "env": "omitted"}])
+    # a rule name shared by two chains in DIFFERENT states on entry (only reachable through the ruler API)
+    for p in ("commonmark", "js-default"):
+        for chain, name in (("inline2", "emphasis"), ("inline", "emphasis"), ("inline2", "strikethrough"), ("inline", "strikethrough"),
+                            ("core", "linkify"), ("inline", "linkify")):
+            for kind in ("disable", "enable"):
+                for body in ("disable", "enable"):
+                    for how in ("normal", "exception"):
+                        hs.append([{"op": "construct", "i": 1, "preset": p, "upd": []},
+                                   {"op": "enable" if kind == "disable" else "disable", "i": 1, "names": [name], "ign": True},
+                                   {"op": "chain_toggle", "i": 1, "kind": kind, "chain": chain, "names": [name]},
+                                   {"op": "parse", "i": 1, "api": "render", "doc": "D2", "env": "omitted"},
+                                   {"op": "enter_reset", "i": 1},
+                                   {"op": body, "i": 1, "names": [name], "ign": True},
+                                   {"op": "exit_reset", "i": 1, "how": how},
+                                   {"op": "parse", "i": 1, "api": "render", "doc": "D2", "env": "omitted"}])
     return hs
 
 
